@@ -628,6 +628,18 @@ class SymNum:
     @staticmethod
     def _div(a, b):
         ENGINE.obligations.append(("definedness: division by zero", b != 0))
+        # (x*b)/b -> x when b is syntactically a factor (b != 0 is an obligation anyway)
+        if z3.is_app(a) and a.decl().kind() == z3.Z3_OP_MUL and not z3.is_rational_value(b) and not z3.is_int_value(b):
+            fs = a.children()
+            for i, f in enumerate(fs):
+                if f.eq(b):
+                    rest = fs[:i] + fs[i + 1 :]
+                    if not rest:
+                        return z3.RealVal(1)
+                    out = rest[0]
+                    for r in rest[1:]:
+                        out = out * r
+                    return _r(out)
         return _r(a) / _r(b)
 
     def __truediv__(self, o):
